@@ -215,6 +215,7 @@ func CoreLoop(ds DataSource, queuedRequests chan func()) {
 
 		// Handle RPC requests
 		case request := <-queuedRequests:
+			verifAccess("sync:queuedRequests", false)
 			request()
 			verifPoint("core:after-request")
 
@@ -232,6 +233,7 @@ func CoreLoop(ds DataSource, queuedRequests chan func()) {
 				verifPoint("core:before-return")
 				return
 			}
+			verifAccess("sync:nextBlock", false)
 			if err := ds.ProcessSegments(block); err != nil {
 				log.Printf("AnySource.ProcessSegments returns Error; stopping source: %s\n", err.Error())
 				panic("Panic to stop source when processSegments errors. This seems to keep the Lancero working better than stopping the source")
@@ -391,6 +393,7 @@ func (ds *AnySource) getPulseLengths() (int, int, error) {
 }
 
 func (ds *AnySource) archiveNewDataBlock(block *dataBlock) {
+	verifAccess("arch:fill", true)
 	ab := &ds.archiveBlock
 	nchan := len(block.segments)
 
@@ -448,6 +451,7 @@ func (ds *AnySource) archiveNewDataBlock(block *dataBlock) {
 		// must not look at ds.archiveBlock itself: it belongs to this (the core loop's) goroutine,
 		// which clears the active flag here and may start filling the next request at any time.
 		ab.active = false
+		verifAccess("sync:archive:complete", true)
 		ab.complete <- *ab
 	}
 }
@@ -463,6 +467,7 @@ func (ds *AnySource) ProcessSegments(block *dataBlock) error {
 	}
 
 	// Sometimes the archiveDataBlock is active. Handle it here.
+	verifAccess("arch", false)
 	if ds.archiveBlock.active {
 		ds.archiveNewDataBlock(block)
 	}
@@ -477,12 +482,16 @@ func (ds *AnySource) ProcessSegments(block *dataBlock) error {
 	for idx, dsp := range ds.processors {
 		segment := block.segments[idx]
 		wg.Add(1)
+		verifAccess(dsp.Name, true)
 		go func(dsp *DataStreamProcessor) {
 			defer wg.Done()
+			verifAccess(dsp.Name, false)
+			defer verifAccess(dsp.Name, true)
 			dsp.processSegment(&segment)
 		}(dsp)
 	}
 	wg.Wait()
+	verifAccess("sync:wg:ProcessSegments", false)
 
 	// Build a map to hold triggerList for each channel index, and then ask the TriggerBroker
 	// to compute the corresponding slice of secondary trigger FrameIndex values for each
@@ -503,19 +512,24 @@ func (ds *AnySource) ProcessSegments(block *dataBlock) error {
 			flist := allSecondaries[idx]
 			if len(flist) > 0 {
 				wg.Add(1)
+				verifAccess(dsp.Name, true)
 				go func(dsp *DataStreamProcessor, flist []FrameIndex) {
 					defer wg.Done()
+					verifAccess(dsp.Name, false)
+					defer verifAccess(dsp.Name, true)
 					dsp.processSecondaries(flist)
 				}(dsp, flist)
 			}
 		}
 	}
 	wg.Wait()
+	verifAccess("sync:wg:ProcessSegments", false)
 
 	// Clean up: mark the data segments as processed, trim the streams of data we no longer need,
 	// and once every 20 reads, flush the output files (but do the files out of phase, so it's not
 	// done for all files at once).
 	tStart := time.Now()
+	verifAccess("procs", true)
 	for idx, dsp := range ds.processors {
 		segment := block.segments[idx]
 		segment.processed = true
@@ -641,7 +655,9 @@ func (ds *AnySource) HandleExternalTriggers(externalTriggerRowcounts []int64) er
 	// The counter is also read by ComputeState, which the RPC server calls from its own goroutine
 	// (ReadComment) while this loop runs: update it under the lock that ComputeState takes.
 	ds.writingState.Lock()
+	verifAccess("sync:ws", false)
 	ds.writingState.externalTriggerNumberObserved += len(externalTriggerRowcounts)
+	verifAccess("sync:ws", true)
 	ds.writingState.Unlock()
 	if ds.writingState.externalTriggerFileBufferedWriter != nil && len(externalTriggerRowcounts) > 0 {
 		_, err := ds.writingState.externalTriggerFileBufferedWriter.Write(getbytes.FromSliceInt64(externalTriggerRowcounts))
@@ -658,8 +674,10 @@ func (ds *AnySource) HandleExternalTriggers(externalTriggerRowcounts []int64) er
 			}
 		}
 		ds.writingState.Lock()
+		verifAccess("sync:ws", false)
 		numberObserved := ds.writingState.externalTriggerNumberObserved
 		ds.writingState.externalTriggerNumberObserved = 0
+		verifAccess("sync:ws", true)
 		ds.writingState.Unlock()
 		clientMessageChan <- ClientUpdate{tag: "EXTERNALTRIGGER",
 			state: struct {
@@ -1157,6 +1175,7 @@ func (ds *AnySource) writeNPZData(file *os.File, ab *archiveableDataBlock, chann
 // in the form of a `storeableDataBlock` struct, then when it's done, writes that info
 // to the numpy-style npz file `file`. Finally, it closes that file and renames it to `finalName`.
 func (ds *AnySource) ArchiveDataBlock(N int, file *os.File, finalName string) error {
+	verifAccess("arch", true)
 	if ds.archiveBlock.active {
 		return fmt.Errorf("cannot start archive block, because one is already being acquired")
 	}
@@ -1172,9 +1191,12 @@ func (ds *AnySource) ArchiveDataBlock(N int, file *os.File, finalName string) er
 
 	// Launch this goroutine, which will execute when the filled block arrives on the complete channel.
 	// It uses only what it is given here and what it receives (never ds.archiveBlock).
+	verifAccess("sync:go:archive", true)
 	go func() {
+		verifAccess("sync:go:archive", false)
 		// When the archiveBlock is filled, write to npz file.
 		filled := <-complete
+		verifAccess("sync:archive:complete", false)
 		if err := ds.writeNPZData(file, &filled, channelNames); err != nil {
 			file.Close()
 		}
